@@ -486,7 +486,7 @@ func inmemConc(a Args) {
 		errPath := fmt.Sprintf("%s.stderr%d", a.Out, r)
 		ctx, cancel := context.WithTimeout(context.Background(), 180*time.Second)
 		cmd := exec.CommandContext(ctx, exe, "inmem", "-mode", "conc-child", "-out", childOut, "-dir", a.Dir,
-			"-seed", strconv.FormatInt(a.Seed*1000+int64(r), 10), "-workers", strconv.Itoa(g), "-len", strconv.Itoa(a.Len))
+			"-seed", strconv.FormatInt(a.Seed*1000+int64(r), 10), "-workers", strconv.Itoa(g), "-len", strconv.Itoa(a.Len), "-sizes", a.Sizes)
 		stderr := &cappedBuf{max: 2 << 20}
 		cmd.Stderr = stderr
 		t0 := time.Now()
@@ -546,7 +546,126 @@ func inmemConc(a Args) {
 	fmt.Printf("{\"events\": %d, \"rounds\": %d, \"died\": %d}\n", rec.N, a.N, died)
 }
 
+// inmemConcExpireChild: expired keys are "missing keys" too. Every owner goroutine stores keys with
+// a 1 s TTL, all sleep past the expiry, then the owners write fresh values (and read them back)
+// while sweeper goroutines keep reading everybody's keys in wide multi-key gets.
+func inmemConcExpireChild(a Args) {
+	h, err := inmem.New()
+	must(err)
+	G := a.Workers
+	owners := (G + 1) / 2
+	nkeys := a.Len
+	if nkeys > 400 {
+		nkeys = 400
+	}
+	w := absx.NewWorld(a.Seed, absx.SizesSmall(), false)
+	for id := 1; id <= 8; id++ {
+		w.Block(id)
+	}
+	pfx := fmt.Sprintf("expire/%d/", a.Seed)
+	raw := func(code int) uint32 { return uint32(code) }
+	// one caller (key prefix) and one little trace per key: the model key is always k1
+	callers := make([][]*hCaller, owners)
+	events := make([][][]map[string]interface{}, owners)
+	for g := 0; g < owners; g++ {
+		callers[g] = make([]*hCaller, nkeys)
+		events[g] = make([][]map[string]interface{}, nkeys)
+		for i := 0; i < nkeys; i++ {
+			c := &hCaller{h: h, w: w, prefix: fmt.Sprintf("%so%d/%d/", pfx, g, i), ttl: raw, rng: rand.New(rand.NewSource(a.Seed*100 + int64(g))), opq: uint32(g) << 20}
+			callers[g][i] = c
+			events[g][i] = append(events[g][i], map[string]interface{}{"ev": "reset", "trace": fmt.Sprintf("expire-g%d-key%d", g, i), "mode": "conc-expire", "g": g, "G": G, "seed": a.Seed})
+			m := MCmd{Op: "set", K: "k1", V: []int{1}, F: 1, T: 1}
+			res, exps := c.call(m)
+			events[g][i] = append(events[g][i], callEvent(m, res, exps, []interface{}{}))
+		}
+	}
+	time.Sleep(2100 * time.Millisecond)
+	for g := 0; g < owners; g++ {
+		for i := 0; i < nkeys; i++ {
+			events[g][i] = append(events[g][i], map[string]interface{}{"ev": "tick"})
+		}
+	}
+	var wg sync.WaitGroup
+	stop := make(chan struct{})
+	var swg sync.WaitGroup
+	for sIdx := owners; sIdx < G || sIdx == owners; sIdx++ {
+		swg.Add(1)
+		go func(sIdx int) {
+			defer swg.Done()
+			rng := rand.New(rand.NewSource(a.Seed*977 + int64(sIdx)))
+			for {
+				select {
+				case <-stop:
+					return
+				default:
+				}
+				o := rng.Intn(owners)
+				req := common.GetRequest{}
+				for i := 0; i < nkeys; i++ {
+					req.Keys = append(req.Keys, callers[o][i].key("k1"))
+					req.Opaques = append(req.Opaques, uint32(i))
+					req.Quiet = append(req.Quiet, false)
+				}
+				if rng.Intn(2) == 0 {
+					rc, ec := h.Get(req)
+					for range rc {
+					}
+					for range ec {
+					}
+				} else {
+					rc, ec := h.GetE(req)
+					for range rc {
+					}
+					for range ec {
+					}
+				}
+			}
+		}(sIdx)
+	}
+	for g := 0; g < owners; g++ {
+		wg.Add(1)
+		go func(g int) {
+			defer wg.Done()
+			for i := 0; i < nkeys; i++ {
+				c := callers[g][i]
+				m := MCmd{Op: "set", K: "k1", V: []int{2 + i%6}, F: 2, T: 0}
+				res, exps := c.call(m)
+				post := []interface{}{}
+				if pr, _ := c.call(MCmd{Op: "gete", K: m.K}); pr[0] == "miss" {
+					post = []interface{}{"none"}
+				} else if pr[0] == "hit" {
+					post = []interface{}{"e", pr[1], pr[2]}
+				}
+				events[g][i] = append(events[g][i], callEvent(m, res, exps, post))
+			}
+			time.Sleep(20 * time.Millisecond)
+			for i := 0; i < nkeys; i++ {
+				m := MCmd{Op: "get", K: "k1"}
+				res, exps := callers[g][i].call(m)
+				events[g][i] = append(events[g][i], callEvent(m, res, exps, []interface{}{}))
+			}
+		}(g)
+	}
+	wg.Wait()
+	close(stop)
+	swg.Wait()
+	rec, err := NewRec(a.Out)
+	must(err)
+	defer rec.Close()
+	for g := range events {
+		for i := range events[g] {
+			for _, ev := range events[g][i] {
+				rec.Emit(ev)
+			}
+		}
+	}
+}
+
 func inmemConcChild(a Args) {
+	if a.Sizes == "expire" {
+		inmemConcExpireChild(a)
+		return
+	}
 	h, err := inmem.New()
 	must(err)
 	G, L := a.Workers, a.Len
